@@ -587,7 +587,7 @@ def gen_op(rng, sess, names, fault=0.0):
         menu += ["disconnect"]
     if comps:
         menu += ["remove_component"]
-    if links:
+    if links or [h for h in ifaces if _is_connected(h)]:
         menu += ["remove_link"]
     menu += ["add_facility", "add_switch", "add_service"]
     if any(_node_type(h) == "Facility" for h in nodes):
@@ -813,7 +813,11 @@ def gen_op(rng, sess, names, fault=0.0):
         cand = [h.obj.name for h in nodes if want is None or _node_type(h) == want]
         op["name"] = rng.choice(cand) if cand and not bad else rng.choice(existing_node_names + ["no-such-node"])
     elif k == "remove_link":
-        op["name"] = rng.choice(links).obj.name if not bad else "no-such-link"
+        try:
+            all_links = sorted(sess.topo.links.keys())      # connection links (made by connect_interface) included
+        except Exception:
+            all_links = [h.obj.name for h in links]
+        op["name"] = rng.choice(all_links or ["no-such-link"]) if not bad else "no-such-link"
     elif k == "remove_service":
         op["name"] = rng.choice(svcs).obj.name if not bad else "no-such-service"
     elif k == "remove_component":
